@@ -191,6 +191,181 @@ def reactor_yaml(run, repo):
                       '[%s] the reactor file also contains %s' % (label, extra), m, fn)
 
 
+def reactor_collections(run, repo):
+    """the options of write_yaml that carry collections: series of temperatures / pressures / flow rates, the
+    sensitivity lists, phases given as objects, the generic section dictionaries, a unit system given as a dictionary"""
+    m = repo.module(OM)
+    fn = m.functions['write_yaml']
+
+    def at(data, *path):
+        cur = data
+        for p_ in path:
+            cur = cur.d.get(p_) if isinstance(cur, DictV) else None
+        return cur
+
+    def quantity(I, got, val, unit):
+        """the printed quantity is '<val> <unit>'"""
+        if got is None:
+            return False
+        sg = I.seg(got)
+        nums = [s_.value for s_ in sg.fields() if isinstance(s_.value, Rat)]
+        return len(nums) == 1 and nums[0].eq(val) and \
+            ''.join(s_.text for s_ in sg.segs if s_.kind == 'lit').strip('"').strip() == unit
+
+    # ---- series (list, tuple/array) with and without the single value next to them
+    for form, single in itertools.product(('list', 'array'), (False, True)):
+        I = new_interp(repo, order=RankOrder({}, const_ranks=True, fallback=lambda a_: 1))
+        D = I.D
+        u = units_obj(I, repo)
+
+        def series(name):
+            v = ListV([D.sym('%s%d' % (name, i)) for i in range(3)])
+            v.is_array = form == 'array'
+            return v
+        mT, mP, mQ = series('T'), series('P'), series('Q')
+        kw = {'units': u, 'phases': DictV(), 'multi_T': mT, 'multi_P': mP, 'multi_flow_rate': mQ}
+        if single:
+            kw.update({'T': D.sym('Ts'), 'P': D.sym('Ps'), 'flow_rate': D.sym('Qs')})
+        r = I.call_function(m, fn, [], kw)
+        label = 'series given as %s%s' % (form, ', single values given too' if single else '')
+        if isinstance(r, Raised) or not I.dumps:
+            run.fail('DATAFLOW.reactor', 'io.omkm.write_yaml', label, 'raises %s / nothing dumped' % show(r), m, fn)
+            continue
+        data = I.dumps[-1]
+        first = {'T': D.sym('Ts') if single else mT.items[0], 'P': D.sym('Ps') if single else mP.items[0],
+                 'Q': D.sym('Qs') if single else mQ.items[0]}
+        gT = at(data, 'reactor', 'temperature')
+        ok1 = isinstance(gT, Rat) and gT.eq(first['T']) and quantity(I, at(data, 'reactor', 'pressure'), first['P'], 'bar') \
+            and quantity(I, at(data, 'inlet_gas', 'flow_rate'), first['Q'], 'cm3/s')
+        run.check(ok1, 'DATAFLOW.reactor', 'io.omkm.write_yaml', 'series: operating point [%s]' % label,
+                  '[%s] reactor temperature/pressure and inlet flow rate must be %s: got %s, %s, %s'
+                  % (label, 'the single values' if single else 'the first entries of the series', show(gT, 40),
+                     show(at(data, 'reactor', 'pressure'), 60), show(at(data, 'inlet_gas', 'flow_rate'), 60)), m, fn)
+        mi = at(data, 'simulation', 'multi_input')
+        gt, gp, gq = (at(mi, k_) if isinstance(mi, DictV) else None for k_ in ('temperature', 'pressure', 'flow_rate'))
+        ok2 = isinstance(gt, ListV) and len(gt) == 3 and all(isinstance(a_, Rat) and a_.eq(b_)
+                                                              for a_, b_ in zip(gt.items, mT.items))
+        ok2 = ok2 and isinstance(gp, ListV) and len(gp) == 3 and \
+            all(quantity(I, a_, b_, 'bar') for a_, b_ in zip(gp.items, mP.items))
+        ok2 = ok2 and isinstance(gq, ListV) and len(gq) == 3 and \
+            all(quantity(I, a_, b_, 'cm3/s') for a_, b_ in zip(gq.items, mQ.items))
+        run.check(ok2, 'DATAFLOW.reactor', 'io.omkm.write_yaml', 'series: multi_input [%s]' % label,
+                  '[%s] simulation/multi_input must list every temperature, every pressure in bar and every flow rate '
+                  'in cm3/s, in order: got %s / %s / %s' % (label, show(gt, 80), show(gp, 120), show(gq, 120)), m, fn,
+                  sample='write_yaml(multi_T, multi_P, multi_flow_rate as %s) -> simulation/multi_input' % form)
+    # ---- sensitivity lists: identifiers given as text or as objects
+    I = new_interp(repo)
+    u = units_obj(I, repo)
+    rx_o = Obj('rxn', attrs={'id': 'r_0002'})
+    sp_o = Obj('sp', attrs={'name': 'CO(S)'})
+    r = I.call_function(m, fn, [], {'units': u, 'phases': DictV(), 'reactions_SA': ListV(['r_0001', rx_o]),
+                                    'species_SA': ListV([sp_o, 'H2'])})
+    data = I.dumps[-1] if I.dumps and not isinstance(r, Raised) else None
+    sens = at(data, 'simulation', 'sensitivity') if data is not None else None
+    okr = isinstance(sens, DictV) and isinstance(sens.d.get('reactions'), ListV) and \
+        [I.plain(x) for x in sens.d['reactions'].items] == ['r_0001', 'r_0002']
+    oks = isinstance(sens, DictV) and isinstance(sens.d.get('species'), ListV) and \
+        [I.plain(x) for x in sens.d['species'].items] == ['CO(S)', 'H2']
+    run.check(okr and oks and set(sens.d) == {'reactions', 'species'}, 'DATAFLOW.reactor', 'io.omkm.write_yaml',
+              'sensitivity lists', 'reactions_SA=[\'r_0001\', <reaction r_0002>], species_SA=[<species CO(S)>, \'H2\'] '
+              'must give simulation/sensitivity/reactions = [r_0001, r_0002] and species = [CO(S), H2] and nothing '
+              'else; got %s' % show(sens, 200), m, fn)
+    for bad_kw, what in (({'reactions_SA': ListV([Obj('noid')])}, 'a reaction without id'),
+                         ({'species_SA': ListV([Obj('noname')])}, 'a species without name')):
+        I = new_interp(repo)
+        for o_ in list(bad_kw.values())[0].items:
+            o_.missing.update({'id', 'name'})
+        r = I.call_function(m, fn, [], dict({'units': units_obj(I, repo), 'phases': DictV()}, **bad_kw))
+        run.check(isinstance(r, Raised) and r.exc == 'TypeError', 'PATH.assign', 'io.omkm.write_yaml',
+                  'sensitivity entry: ' + what, '%s in a sensitivity list must be rejected with TypeError, got %s'
+                  % (what, show(r, 80)), m, fn)
+    # ---- phases given as objects
+    I = new_interp(repo)
+    D = I.D
+    fr = Frame(I, repo.module('pmutt'), {}, None, None)
+    mk = lambda q_, **k_: fr.apply(repo.cls(q_), [], k_, None)
+    x1, x2, x3 = D.sym('x1'), D.sym('x2'), D.sym('x3')
+    for gas_q in ('pmutt.omkm.phase.IdealGas', 'pmutt.cantera.phase.IdealGas'):
+        gas = mk(gas_q, name='gas', initial_state=DictV({'H2': x1, 'N2': x2}))
+        bulk = mk('pmutt.omkm.phase.StoichSolid', name='bulk')
+        terr = mk('pmutt.omkm.phase.InteractingInterface', name='terrace')
+        step = mk('pmutt.omkm.phase.InteractingInterface', name='step', initial_state=DictV({'PT(S)': x3}))
+        for subset, lab in (([gas, bulk, terr, step], 'gas, bulk, two interfaces'), ([terr], 'one interface'),
+                            ([gas], 'gas only')):
+            I.dumps.clear()
+            r = I.call_function(m, fn, [], {'units': units_obj(I, repo), 'phases': ListV(subset)})
+            ph = at(I.dumps[-1], 'phases') if I.dumps and not isinstance(r, Raised) else None
+            ok = isinstance(ph, DictV)
+            why = 'phases section is %s' % show(ph if ph is not None else r, 200)
+            if ok:
+                def info(x):
+                    return {k_: (I.seg(v_) if isinstance(v_, (str, SegStr)) else v_) for k_, v_ in x.d.items()} \
+                        if isinstance(x, DictV) else None
+                want_keys = set()
+                if gas in subset:
+                    want_keys.add('gas')
+                    g_ = info(ph.d.get('gas'))
+                    ok = ok and g_ is not None and set(g_) == {'name', 'initial_state'} and I.plain(g_['name']) == 'gas'
+                    if ok:
+                        st = g_['initial_state']
+                        vals = [s_.value for s_ in st.fields() if isinstance(s_.value, Rat)]
+                        lit = ''.join(s_.text for s_ in st.segs if s_.kind == 'lit')
+                        ok = len(vals) == 2 and vals[0].eq(x1) and vals[1].eq(x2) and \
+                            lit.replace(' ', '') == '"H2:,N2:"'
+                if bulk in subset:
+                    want_keys.add('bulk')
+                    b_ = info(ph.d.get('bulk'))
+                    ok = ok and b_ is not None and set(b_) == {'name'} and I.plain(b_['name']) == 'bulk'
+                if terr in subset:
+                    want_keys.add('surfaces')
+                    sf = ph.d.get('surfaces')
+                    names_ = [I.plain(x.d.get('name')) for x in sf.items] if isinstance(sf, ListV) and \
+                        all(isinstance(x, DictV) for x in sf.items) else None
+                    want_names = [n_ for p_, n_ in ((terr, 'terrace'), (step, 'step')) if p_ in subset]
+                    ok = ok and names_ == want_names
+                    if ok and step in subset:
+                        ok = set(sf.items[1].d) == {'name', 'initial_state'} and set(sf.items[0].d) == {'name'}
+                ok = ok and set(ph.d) == want_keys
+            run.check(ok, 'DATAFLOW.reactor', 'io.omkm.write_yaml', 'phases as objects [%s, %s]'
+                      % (lab, gas_q.split('.')[1]),
+                      '[%s] every phase must appear once under gas / bulk / surfaces (surfaces always a list) with its '
+                      'name and, when it has one, its initial state "species:fraction, ..."; %s' % (lab, why), m, fn,
+                      sample='write_yaml(phases=[%s]) -> gas/bulk/surfaces' % lab)
+    # ---- generic section dictionaries are carried, misc entries go to the top level
+    I = new_interp(repo)
+    D = I.D
+    r = I.call_function(m, fn, [], {'units': units_obj(I, repo), 'phases': DictV(),
+                                    'reactor': DictV({'custom_r': D.sym('c1')}),
+                                    'inlet_gas': DictV({'custom_i': D.sym('c2')}),
+                                    'simulation': DictV({'custom_s': D.sym('c3')}),
+                                    'solver': DictV({'custom_v': D.sym('c4')}),
+                                    'multi_input': DictV({'custom_m': D.sym('c5')}),
+                                    'misc': DictV({'custom_top': D.sym('c6')})})
+    data = I.dumps[-1] if I.dumps and not isinstance(r, Raised) else None
+    got = [at(data, *p_) if data is not None else None for p_ in (
+        ('reactor', 'custom_r'), ('inlet_gas', 'custom_i'), ('simulation', 'custom_s'),
+        ('simulation', 'solver', 'custom_v'), ('simulation', 'multi_input', 'custom_m'), ('custom_top',))]
+    ok = all(isinstance(g_, Rat) and g_.eq(D.sym('c%d' % (i + 1))) for i, g_ in enumerate(got))
+    if data is None:
+        got = [r]
+    run.check(ok, 'DATAFLOW.reactor', 'io.omkm.write_yaml', 'generic dictionaries',
+              'entries the user put in the reactor / inlet_gas / simulation / solver / multi_input / misc '
+              'dictionaries must be carried to their sections (misc to the top level): got %s'
+              % [show(g_, 30) for g_ in got], m, fn)
+    # ---- a unit system given as a dictionary
+    I = new_interp(repo, order=RankOrder({}, const_ranks=True, fallback=lambda a_: 1))
+    D = I.D
+    r = I.call_function(m, fn, [], {'units': DictV({'length': 'm', 'time': 'min', 'pressure': 'Pa'}), 'phases': DictV(),
+                                    'V': D.sym('vV'), 'P': D.sym('vP'), 'flow_rate': D.sym('vQ')})
+    data = I.dumps[-1] if I.dumps and not isinstance(r, Raised) else None
+    ok = data is not None and quantity(I, at(data, 'reactor', 'volume'), D.sym('vV'), 'm3') and \
+        quantity(I, at(data, 'reactor', 'pressure'), D.sym('vP'), 'Pa') and \
+        quantity(I, at(data, 'inlet_gas', 'flow_rate'), D.sym('vQ'), 'm3/min')
+    run.check(ok, 'DATAFLOW.unit', 'io.omkm.write_yaml', 'unit system as dictionary',
+              'with units={length: m, time: min, pressure: Pa} volume, pressure and flow rate must be written in m3, '
+              'Pa and m3/min: got %s' % (show(data, 200) if data is not None else show(r)), m, fn)
+
+
 # ----------------------------------------------------------------------
 def marker_obj(I, oname, **attrs):
     """object whose to_cti / to_omkm_yaml return a marker naming the object and the id it has at that moment"""
@@ -504,6 +679,7 @@ def check(run, repo):
                      '_filter_reactions semantics']
     assign_yaml(run, repo)
     reactor_yaml(run, repo)
+    reactor_collections(run, repo)
     file_assembly(run, repo)
     phases_independent(run, repo)
     organize(run, repo)
@@ -514,6 +690,24 @@ def check(run, repo):
 
 O_ = 'pmutt/io/omkm.py'
 MUTANTS = [
+    {'name': 'a BEP relation is listed once per reaction', 'expect': ('DATAFLOW.phase', 'InteractingInterface.to_cti'),
+     'edits': [('pmutt/omkm/phase.py', "                if bep.name in beps:\n                    continue", "                if bep.name in beps:\n                    pass")]},
+    {'name': 'reactions declared only when there are none', 'expect': ('DATAFLOW.phase', 'InteractingInterface.to_omkm_yaml'),
+     'edits': [('pmutt/omkm/phase.py', "        if self.reactions is None or len(self.reactions) == 0:\n            yaml_dict['reactions'] = 'none'", "        if self.reactions is not None and len(self.reactions) > 0:\n            yaml_dict['reactions'] = 'none'", 1, 2)]},
+    {'name': 'interface entry lists the interactions under reactions', 'expect': ('DATAFLOW.phase', 'InteractingInterface.to_cti'),
+     'edits': [('pmutt/omkm/phase.py', "            val = getattr(self, range_field)\n            # Skip empty fields", "            val = getattr(self, 'interactions')\n            # Skip empty fields")]},
+    {'name': 'reaction registers under the other direction', 'expect': ('DATAFLOW.bep', 'SurfaceReaction.__init__'),
+     'edits': [('pmutt/omkm/reaction.py', "                if self.direction == 'synthesis':\n                    self.bep.synthesis_reactions.append(self)", "                if self.direction != 'synthesis':\n                    self.bep.synthesis_reactions.append(self)")]},
+    {'name': 'BEP directive lists the members in the wrong slots', 'expect': ('DATAFLOW.bep', 'BEP.to_cti'),
+     'edits': [('pmutt/omkm/reaction.py', "        synthesis_reactions = _get_omkm_range(objs=self.synthesis_reactions,\n                                             parent_obj=self,\n                                             delimiter=delimiter)", "        synthesis_reactions = _get_omkm_range(objs=self.cleavage_reactions,\n                                             parent_obj=self,\n                                             delimiter=delimiter)")]},
+    {'name': 'a single interface is unwrapped like gas and bulk', 'expect': ('DATAFLOW.reactor', 'write_yaml'),
+     'edits': [(O_, "            if len(phases) == 1 and phase_type != 'surfaces':", "            if len(phases) == 1:")]},
+    {'name': 'reactor pressure from the last entry of the series', 'expect': ('DATAFLOW.reactor', 'write_yaml'),
+     'edits': [(O_, "        reactor_params.append(_Param('pressure', multi_P[0], '_pressure'))", "        reactor_params.append(_Param('pressure', multi_P[-1], '_pressure'))")]},
+    {'name': 'sensitivity species written by id', 'expect': ('', 'write_yaml'),
+     'edits': [(O_, "                    name = ind_species.name", "                    name = ind_species.id")]},
+    {'name': 'misc entries dropped', 'expect': ('DATAFLOW.reactor', 'write_yaml'),
+     'edits': [(O_, "    yaml_dict = misc.copy()", "    yaml_dict = {}")]},
     {'name': 'only int/float get units again', 'expect': ('PATH.assign', 'write_yaml'),
      'edits': [('pmutt/omkm/__init__.py', '    if isinstance(param.val, numbers.Number):', '    if isinstance(param.val, (int, float)):'),
                ('pmutt/omkm/__init__.py', "    else:\n        err_msg = ('Unable to write {} ({}) with units. Expected a number, a '", "    elif False:\n        err_msg = ('Unable to write {} ({}) with units. Expected a number, a '")]},
